@@ -135,6 +135,13 @@ def combos(chk, tier):
     (d / "noh.naunet").write_text("\n".join([native(1, ["C", "O"], ["CO"]), native(2, ["C", "CR"], ["C+", "e-"], ty=101),
                                               native(3, ["C+", "e-"], ["C"], b=-0.6), native(4, ["CO", "CR"], ["C", "O"], ty=101)]) + "\n")
     (d / "heonly.naunet").write_text("\n".join([native(1, ["He", "CR"], ["He+", "e-"], ty=101), native(2, ["He+", "e-"], ["He"], b=-0.6)]) + "\n")
+    # one species spelled two ways by two databases (the electron is `E` in KROME files, `e-` in KIDA / UMIST ones)
+    (d / "el.krome").write_text("@format:idx,R,R,R,P,P,P,P,Tmin,Tmax,rate\n1,H,E,,H+,E,E,,NONE,NONE,1.0d-10*Te\n2,H+,E,,H,,,,NONE,NONE,3.0d-12*invTe\n")
+    kl = lambda i, re_, pr_: (f"{''.join(f'{x:<11}' for x in re_ + [''] * (3 - len(re_)))} {''.join(f'{x:<11}' for x in pr_ + [''] * (5 - len(pr_)))} "
+                              f"{1e-10:10.3e} {0.0:10.3e} {0.0:10.3e} 2.00e+00 0.00e+00 logn  1 {-9999:>6d} {9999:>6d} {3:>2d} {i:>5d} 1  1")
+    (d / "el.kida").write_text("\n".join([kl(11, ["C+", "e-"], ["C"]), kl(12, ["C", "H+"], ["C+", "H"]), kl(13, ["H", "e-"], ["H+", "e-", "e-"])]) + "\n")
+    out.append(("krome-kida-mixture+nograin", [d / "el.krome", d / "el.kida"], ["krome", "kida"], "", {}, E))
+    out.append(("kida-krome-mixture+nograin", [d / "el.kida", d / "el.krome"], ["kida", "krome"], "", {}, E))
     out.append(("no-hydrogen+nograin", [d / "noh.naunet"], ["naunet"], "", {}, E))
     out.append(("helium-only+nograin", [d / "heonly.naunet"], ["naunet"], "", {}, E))
     out.append(("krome-d-intrinsics+nograin", [d / "intrinsics.krome"], ["krome"], "", {}, KE))
